@@ -134,7 +134,10 @@ func (g *AuthGen) Run(nOps int) {
 	w.emit(fmt.Sprintf("relayers %s %s %s", c.ChainName, q.ChainName, w.CanonAddr(c.SenderAccounts[0].SenderAccount.GetAddress().String())), "res=ok")
 	w.addr[govAuthority()] = "gov"
 	srv := tibckeeper.NewMsgServerImpl(*c.App.TIBCKeeper)
-	names := []string{q.ChainName, "newchain01", "otherchain2", "short"}
+	// names incl. pairs where one is a proper prefix of the other (relayer sets are per exact name)
+	names := []string{q.ChainName, "newchain01", "otherchain2", "short", q.ChainName + "0", "newchain0"}
+	// harness-side registry of relayers, maintained from the accepted requests only
+	reg := map[string][]string{q.ChainName: {w.CanonAddr(c.SenderAccounts[0].SenderAccount.GetAddress().String())}}
 	signers := func() string {
 		switch g.r.Intn(8) {
 		case 0, 1, 2:
@@ -234,6 +237,9 @@ func (g *AuthGen) Run(nOps int) {
 				crs = append(crs, w.CanonAddr(r))
 			}
 			op = strings.TrimSpace(fmt.Sprintf("m.relayers %s %s %s %s", c.ChainName, w.CanonAddr(auth), name, strings.Join(crs, " ")))
+			if res == "ok" {
+				reg[name] = crs
+			}
 			g.stats["m.relayers."+res]++
 		case 3: // routing rules
 			auth := signers()
@@ -250,7 +256,7 @@ func (g *AuthGen) Run(nOps int) {
 			op = strings.TrimSpace(fmt.Sprintf("m.rules %s %s %s", c.ChainName, w.CanonAddr(auth), strings.Join(hr, " ")))
 			g.stats["m.rules."+res]++
 		default: // update client
-			name := []string{q.ChainName, q.ChainName, "newchain01"}[g.r.Intn(3)]
+			name := []string{q.ChainName, q.ChainName, "newchain01", "newchain0", q.ChainName, q.ChainName + "0"}[g.r.Intn(6)]
 			sgIdx := g.r.Intn(4)
 			signer := c.SenderAccounts[sgIdx].SenderAccount.GetAddress()
 			w.Coord.CommitBlock(q)
@@ -296,8 +302,17 @@ func (g *AuthGen) Run(nOps int) {
 		if res == "ok" && !strings.HasPrefix(op, "m.update") && signerTok != "gov" {
 			w.hit("C15", "privileged-operation-took-effect-for-non-authority "+op)
 		}
-		if res == "ok" && strings.HasPrefix(op, "m.update") && !g.isRelayer(c, strings.Fields(op)[3], signerTok) {
-			w.hit("C15", "header-update-accepted-from-unregistered-relayer "+op)
+		if strings.HasPrefix(op, "m.update") {
+			listed := false
+			for _, r := range reg[strings.Fields(op)[3]] {
+				listed = listed || r == signerTok
+			}
+			if res == "ok" && (!listed || !g.isRelayer(c, strings.Fields(op)[3], signerTok)) {
+				w.hit("C15", "header-update-accepted-from-unregistered-relayer "+op)
+			}
+			if res != "unauthorized" && res != "clientNotFound" && !listed {
+				w.hit("C15", "header-update-of-unregistered-relayer-passed-the-relayer-check "+op)
+			}
 		}
 		w.emit(op, fmt.Sprintf("res=%s |  | %s", res, w.regDump(c, names)))
 	}
